@@ -3,6 +3,7 @@ package main
 import (
 	"encoding/json"
 	"fmt"
+	"github.com/google/safehtml"
 	suc "github.com/google/safehtml/uncheckedconversions"
 	"os"
 	"os/exec"
@@ -411,7 +412,16 @@ func c06ContextScenario() *hist.Scenario {
 			// fails at run time after part of the output was produced
 			`{{define "rtf"}}<em>partial</em><script>{{.S}}</script>{{end}}` +
 			`R{{template "top" .}}`,
-		Data: append(histData(), map[string]interface{}{"S": suc.HTMLFromStringKnownToSatisfyTypeContract("<b>x</b>"), "L": []string{}}),
+		Data: append(histData(), map[string]interface{}{"S": suc.HTMLFromStringKnownToSatisfyTypeContract("<b>x</b>"), "L": []string{}},
+			// the same pointer type once nil (also behind a second pointer) and once pointing to a value
+			map[string]interface{}{"S": (*safehtml.HTML)(nil), "L": []string{}},
+			map[string]interface{}{"S": func() **safehtml.HTML { var p *safehtml.HTML; return &p }(), "L": []string{}},
+			map[string]interface{}{"S": func() *safehtml.HTML { h := suc.HTMLFromStringKnownToSatisfyTypeContract("<b>x</b>"); return &h }(), "L": []string{}},
+			map[string]interface{}{"S": func() **safehtml.HTML {
+				h := suc.HTMLFromStringKnownToSatisfyTypeContract("<i>y</i>")
+				p := &h
+				return &p
+			}(), "L": []string{}}),
 	}
 }
 
@@ -433,6 +443,9 @@ func c06ContextAlphabet() []hist.Op {
 		ops = append(ops, hist.Op{Kind: hist.Exec, H: 0, Form: 3, Name: name, Arg: 0})
 	}
 	ops = append(ops, hist.Op{Kind: hist.Exec, H: 0, Form: 1, Arg: 0}, hist.Op{Kind: hist.CSP, H: 0})
+	for arg := 3; arg <= 6; arg++ {
+		ops = append(ops, hist.Op{Kind: hist.Exec, H: 0, Form: 2, Name: "pq", Arg: arg})
+	}
 	return ops
 }
 
@@ -504,7 +517,12 @@ func c08Scenario() *hist.Scenario {
 			`{{define "cmt"}}a{{/* c */}}b{{end}}{{define "tagend"}}<my-{{end}}{{define "tagend2"}}<svg:{{end}}` +
 			// functions that call back into the set during an execution
 			`{{define "item"}}<li>{{.}}</li>{{end}}{{define "pp"}}<ul>{{range .L}}{{partial "item" .}}{{end}}</ul>{{end}}` +
-			`{{define "hs"}}{{if has "item"}}{{template "item" .S}}{{end}}{{count}}{{end}}{{define "pbad"}}{{partial "bad" .}}{{end}}ROOT`,
+			`{{define "hs"}}{{if has "item"}}{{template "item" .S}}{{end}}{{count}}{{end}}{{define "pbad"}}{{partial "bad" .}}{{end}}` +
+			// recursive helpers that extend the static text of an attribute value; a helper that closes the calling attribute
+			`{{define "rr"}}a{{if .N}}{{template "rr" .N}}{{end}}{{end}}{{define "recp"}}<a href="x{{template "rr" .}}">l</a>{{end}}` +
+			`{{define "rq"}}k={{.S}}{{if .N}}&{{template "rq" .N}}{{end}}{{end}}{{define "recq"}}<a href="/p?{{template "rq" .}}">l</a>{{end}}` +
+			`{{define "rt"}}/a{{if .N}}{{template "rt" .N}}{{end}}{{end}}{{define "rect"}}<script src="/s{{template "rt" .}}/x.js"></script>{{end}}` +
+			`{{define "t2"}}" title="{{end}}{{define "twice"}}<a href="/foo?{{template "t2"}}{{.S}}">x</a><a href="/foo?{{template "t2"}}{{.S}}">y</a>{{range .L}}<b title="a{{template "t2"}}b">z</b>{{end}}{{end}}ROOT`,
 		Texts: []string{`{{define "x"}}{{.S}`, `{{define "bad"}}ok{{end}}`, `<p {{.S}}>x</p>`, `<p>{{.S}}</p>`},
 		Data:  histData(),
 	}
@@ -512,7 +530,7 @@ func c08Scenario() *hist.Scenario {
 
 func c08Alphabet() []hist.Op {
 	var ops []hist.Op
-	for _, name := range []string{"brk", "cnt", "bad", "cb", "empty", "ce", "cmt", "tagend", "tagend2", "nope", "pp", "hs", "pbad"} {
+	for _, name := range []string{"brk", "cnt", "bad", "cb", "empty", "ce", "cmt", "tagend", "tagend2", "nope", "pp", "hs", "pbad", "recp", "recq", "rect", "twice"} {
 		ops = append(ops, hist.Op{Kind: hist.Exec, H: 0, Form: 2, Name: name, Arg: 0})
 	}
 	ops = append(ops,
